@@ -30,4 +30,19 @@ P("C18", "proof", "rustc accept/reject probes with compiling twins + impl-predic
   "borrow: all lifetimes of the return type are the receiver's, and generated programs that mutate or drop the cache while the "
   "result (or an item of a borrowing iterator) is alive are rejected with E0499/E0502/E0505, twins compile.",
   "Trusted base: rustc. Borrow probes instantiate K=V=String; the signature rule is instantiation-independent.", "DESIGN.md 3/C18")
+P("C08", "other", "term algebra over MIR def-use (polynomial normal forms) + sibling agreement + call-graph cycle check + E0119 probe",
+  "Structural clauses decided: mem_size's one blanket impl returns value_size+heap_size and cannot be overridden (E0119 witness); for "
+  "every HeapSize impl the return term on every path is exactly the sum of one part per owned component prescribed for that std type "
+  "(tuples by arity, Option/Result per variant, ranges, Wrapping, Box, slices/arrays, Vec/BinaryHeap/HashMap/HashSet incl. hasher, "
+  "Mutex/RwLock); provided defaults are the element-wise sums; every bulk override is the lifting of the impl's own heap_size over fresh "
+  "make_iter() calls; the array-flattening iterator's next/size_hint have the required shape; no same-instantiation recursion and no "
+  "panic-capable callee on any size-estimation path.",
+  TB + " Not decided: that std iterators yield each element once; arithmetic overflow of sums.", "DESIGN.md 3/C08")
+P("C09", "other", "term algebra over MIR def-use: own-buffer term per std owner type",
+  "Structural clause decided (partial): for every HeapSize impl of a std buffer owner the own-buffer term on every path is "
+  "capacity() (byte buffers) or capacity() x size_of::<stored element>() with the right element type, exact-fit owners use the pointee's "
+  "mem_size (Box) or as_bytes_with_nul().len() (CString), references contribute 0, and no length-derived term stands in for a buffer. "
+  "This is the necessary condition 'the estimate is built from the accessor std documents as the allocation size'; the numeric equality "
+  "with the allocator is a runtime quantity and is not decided.",
+  TB + " Not decided: allocator rounding, hashbrown control bytes.", "DESIGN.md 3/C09")
 NOT_CLAIMED = {}
